@@ -114,9 +114,33 @@ func (c *Ctx) NAME(rule string) []report.Obligation {
 					good = false
 				}
 			}
+			// ... and unconditionally: the store replaces whatever the environment held before (the value
+			// interpolation sees is the resolved name); it may only depend on the nil test that creates the map
+			for _, b := range exp.Blocks {
+				for _, in := range b.Instrs {
+					mu, ok := in.(*ssa.MapUpdate)
+					if !ok {
+						continue
+					}
+					if k, _ := prog.ConstString(mu.Key); k != "COMPOSE_PROJECT_NAME" {
+						continue
+					}
+					for _, d := range prog.Info(exp).TransitiveControlDeps(b) {
+						iff, isIf := d.Branch.Instrs[len(d.Branch.Instrs)-1].(*ssa.If)
+						if !isIf {
+							continue
+						}
+						bo, isB := iff.Cond.(*ssa.BinOp)
+						if isB && (prog.IsNilConst(bo.X) || prog.IsNilConst(bo.Y)) {
+							continue
+						}
+						good = false
+					}
+				}
+			}
 		}
 		out = append(out, verdict(good, rule+"-2", "projectName :: name exported on every exit", c.P.Pos(f.Pos()),
-			"a deferred function stores Environment[COMPOSE_PROJECT_NAME] = opts.projectName and the defer dominates every return", "the resolved name is not exported to the environment on every exit"))
+			"a deferred function stores Environment[COMPOSE_PROJECT_NAME] = opts.projectName and the defer dominates every return", "the resolved name is not exported to the environment on every exit, or only when the environment does not already hold a (possibly different) value"))
 		// imperative branch
 		var impIf *ssa.BasicBlock
 		for _, b := range f.Blocks {
